@@ -388,6 +388,7 @@ def run(P, R, tier):
     parallel_kernels(P, R)
     task_isolation(P, R)
     thread_count_rules(P, R)
+    common.forward(P, R, 'C12', ['C12.g'], 'C18.g', 'a row selection does not share the partition caches of its parent: whichever of the two builds the index first would decide the entry both use', floor=2)
     common.forward(P, R, 'C04', ['C04.b', 'C04.c'], 'C18.g', 'a cx query racing with the first build_sindex: the indexer works on ONE snapshot of the index and branches on the result it obtained', floor=2)
     # write-target injectivity of the packing tasks (shared with C10.c)
     from rules import C10
